@@ -374,10 +374,13 @@ class Exec(object):
         # tempo
         self.clauses["C16.tempo"] += 1
         tempos = [e for e in evs if e["kind"] == "meta" and e["type"] == 0x51]
-        if not evs or evs[0]["kind"] != "meta" or evs[0]["type"] != 0x51 or evs[0]["tick"] != 0:
-            self.fail("C16.tempo", "track %d: first event is not a tempo event at tick 0" % ti, **f)
-        elif int.from_bytes(evs[0]["data"], "big") != 60000000 // bpm:
-            self.fail("C16.tempo", "track %d: tempo %d us per quarter, expected %d (bpm %d)" % (ti, int.from_bytes(evs[0]["data"], "big"), 60000000 // bpm, bpm), **f)
+        first_note_i = next((i for i, e in enumerate(evs) if e["kind"] == "note_on"), len(evs))
+        tempo_i = next((i for i, e in enumerate(evs) if e["kind"] == "meta" and e["type"] == 0x51), None)
+        # the tempo holds from the start: one tempo event, at tick 0, before any note (its place among the tick-0 events is free)
+        if tempo_i is None or evs[tempo_i]["tick"] != 0 or tempo_i > first_note_i:
+            self.fail("C16.tempo", "track %d: no tempo event at tick 0 before the first note" % ti, **f)
+        elif int.from_bytes(evs[tempo_i]["data"], "big") != 60000000 // bpm:
+            self.fail("C16.tempo", "track %d: tempo %d us per quarter, expected %d (bpm %d)" % (ti, int.from_bytes(evs[tempo_i]["data"], "big"), 60000000 // bpm, bpm), **f)
         elif len(tempos) != 1:
             self.fail("C16.tempo", "track %d: %d tempo events, expected 1" % (ti, len(tempos)), **f)
         # name
